@@ -14,6 +14,9 @@
 #include "riff.h"
 #include <fstream>
 #include <algorithm>
+#include <unistd.h>
+#include <fcntl.h>
+#include <sys/stat.h>
 
 void setup_conv_song(Song& song, const std::vector<std::string>& toks); // h_conv.cpp
 
@@ -30,6 +33,27 @@ typedef std::map<int, int> iimap_t;
 ROBC(C_used, iimap_t, used_data_map)
 ROBC(C_sub, iimap_t, subroutine_map)
 ROBC(C_mac, iimap_t, macro_track_map)
+
+// the code under test prints progress to stdout (wave bank, ignored macro-track events);
+// keep the protocol stream clean
+struct QuietC09
+{
+	int saved;
+	QuietC09()
+	{
+		fflush(stdout);
+		saved = dup(1);
+		int nul = open("/dev/null", O_WRONLY);
+		dup2(nul, 1);
+		close(nul);
+	}
+	~QuietC09()
+	{
+		fflush(stdout);
+		dup2(saved, 1);
+		close(saved);
+	}
+};
 
 std::string show_by_value(const iimap_t& m)
 {
@@ -85,6 +109,16 @@ static std::string h_mds(const std::string& arg)
 	}
 	std::vector<std::string> ctoks = split_ws(conv);
 	std::vector<std::string> rest;
+	std::vector<std::string> written;
+	// several harness processes share the work directory: files go into a directory of this process
+	static bool moved = false;
+	if(!moved)
+	{
+		std::string d = "p" + std::to_string(getpid());
+		mkdir(d.c_str(), 0777);
+		if(chdir(d.c_str()) != 0) return "bad-workdir";
+		moved = true;
+	}
 	for(const std::string& t : ctoks)
 	{
 		if(t.compare(0, 2, "W:") == 0)
@@ -95,10 +129,13 @@ static std::string h_mds(const std::string& arg)
 			std::vector<uint8_t> bytes = bytes_of_hex(t.substr(eq + 1));
 			std::ofstream f(name, std::ios::binary | std::ios::trunc);
 			f.write((const char*)bytes.data(), bytes.size());
+			written.push_back(name);
 		}
 		else rest.push_back(t);
 	}
 	setup_conv_song(song, rest);
+	QuietC09 quiet;
+	struct Cleanup { std::vector<std::string>& w; ~Cleanup() { for(auto& n : w) unlink(n.c_str()); } } cleanup{written};
 	// definition errors are classified apart: read_song on a scratch data bank (deterministic,
 	// the converter's own read_song does the same again)
 	try
